@@ -35,6 +35,9 @@ type Step struct {
 	Client int    `json:"client,omitempty"`
 	// Host: hostname option bytes (hex); empty = no option 12
 	Host string `json:"host,omitempty"`
+	// PreLease: seconds; if not 0 the response handed to the plugin already carries a lease time
+	// option with this value, as it does when lease_time is listed before range
+	PreLease uint32 `json:"prelease,omitempty"`
 }
 
 // Case is a range, a set of clients and a history
@@ -109,7 +112,13 @@ type reply struct {
 	served bool
 	ip     uint32
 	viol   *core.Violation
+	// promised: the lease time the reply tells the client (what the stored expiry must cover)
+	promised    time.Duration
+	hasPromised bool
 }
+
+// preLease is the lease time the next response stub carries before the plugin sees it (0: none)
+var preLease atomic.Uint32
 
 // ask sends one request through the handler and checks the per-reply predicates
 func (c *Case) ask(h handler.Handler4, client int, kind, host string, xid uint32) reply {
@@ -119,6 +128,9 @@ func (c *Case) ask(h handler.Handler4, client int, kind, host string, xid uint32
 	}
 	var resp *dhcpv4.DHCPv4
 	var stop bool
+	if pl := preLease.Swap(0); pl != 0 {
+		stub.UpdateOption(dhcpv4.OptIPAddressLeaseTime(time.Duration(pl) * time.Second))
+	}
 	returned, pan := core.Call(20*time.Second, func() { resp, stop = h(req, stub) })
 	if pan != nil {
 		panic(pan)
@@ -141,7 +153,8 @@ func (c *Case) ask(h handler.Handler4, client int, kind, host string, xid uint32
 	}
 	d, _ := time.ParseDuration(c.Lease)
 	want := d.Round(time.Second)
-	if got := resp.IPAddressLeaseTime(-1); got != want {
+	got := resp.IPAddressLeaseTime(-1)
+	if got != want && c.Mode != "C03" {
 		return reply{viol: core.Violate("C02/lease-time", "client %s: lease time option is %v, configured %s (rounded %v)", c.Clients[client], got, c.Lease, want)}
 	}
 	// what goes on the wire must say the same
@@ -152,7 +165,9 @@ func (c *Case) ask(h handler.Handler4, client int, kind, host string, xid uint32
 	if bip, _ := ipu32(back.YourIPAddr); bip != ip {
 		return reply{viol: core.Violate("C02/address-outside-range", "yiaddr changes on the wire: %v vs %v", back.YourIPAddr, resp.YourIPAddr)}
 	}
-	return reply{served: true, ip: ip}
+	// C03 goes on with whatever lease time the client was told: that is the promise the stored
+	// expiry has to cover
+	return reply{served: true, ip: ip, promised: got, hasPromised: got >= 0}
 }
 
 var (
@@ -179,6 +194,17 @@ type model struct {
 	bound   map[int]uint32 // client -> address
 	owner   map[uint32]int // address -> client
 	promise map[int]time.Time
+	// promisedFor: the lease time of the reply that made the promise, when it is not the configured one
+	promisedFor map[int]time.Duration
+}
+
+// notePromise records the lease time a reply carried when it is longer than the configured one
+// (shorter ones are covered by the configured duration the check uses by default)
+func (m *model) notePromise(cl int, r reply, leaseDur time.Duration) {
+	delete(m.promisedFor, cl)
+	if r.hasPromised && r.promised > leaseDur.Round(time.Second) {
+		m.promisedFor[cl] = r.promised
+	}
 }
 
 // parseStoredMAC is the harness's own reading of the mac column: what
@@ -316,7 +342,11 @@ func (c *Case) crashPoint(db string, m *model, step int, leaseDur time.Duration)
 			return core.Violate("C03/binding-changed", "step %d: client %s was given %s, database says %s", step, k, u32ip(ip), u32ip(r.ip))
 		}
 		if t, ok := m.promise[cl]; ok {
-			low := t.Add(leaseDur).Unix() - 1
+			ld := leaseDur
+			if d, ok := m.promisedFor[cl]; ok {
+				ld = d
+			}
+			low := t.Add(ld).Unix() - 1
 			if r.expiry < low {
 				return core.Violate("C03/expiry-too-early", "step %d: client %s was promised a lease until >= %d, stored expiry %d", step, k, low, r.expiry)
 			}
@@ -397,7 +427,7 @@ func Exec(c Case) (res core.Result) {
 		res.Viol = core.Violate(c.Mode+"/setup-rejects-valid-config", "Setup4(%s, %s..+%d, %s): %v", db, u32ip(c.Start), c.N, c.Lease, err)
 		return
 	}
-	m := &model{bound: map[int]uint32{}, owner: map[uint32]int{}, promise: map[int]time.Time{}}
+	m := &model{bound: map[int]uint32{}, owner: map[uint32]int{}, promise: map[int]time.Time{}, promisedFor: map[int]time.Duration{}}
 	var sawRepeat, sawRestart, sawFull, sawOddLen, sawNumHost bool
 	xid := uint32(1)
 	for i, st := range c.Steps {
@@ -421,7 +451,9 @@ func Exec(c Case) (res core.Result) {
 		}
 		xid++
 		before := time.Now()
+		preLease.Store(st.PreLease)
 		r := c.ask(h, st.Client, st.Kind, st.Host, xid)
+		preLease.Store(0)
 		if r.viol != nil {
 			r.viol.Message = fmt.Sprintf("step %d: %s", i, r.viol.Message)
 			res.Viol = r.viol
@@ -444,6 +476,7 @@ func Exec(c Case) (res core.Result) {
 		case known:
 			sawRepeat = true
 			m.promise[st.Client] = before
+			m.notePromise(st.Client, r, leaseDur)
 		default:
 			if o, taken := m.owner[r.ip]; taken {
 				res.Viol = core.Violate("C02/address-bound-twice", "step %d: new client %s was given %s, which is bound to client %s", i, c.Clients[st.Client], u32ip(r.ip), c.Clients[o])
@@ -460,6 +493,7 @@ func Exec(c Case) (res core.Result) {
 			m.bound[st.Client] = r.ip
 			m.owner[r.ip] = st.Client
 			m.promise[st.Client] = before
+			m.notePromise(st.Client, r, leaseDur)
 		}
 		if l := len(c.Clients[st.Client]) / 2; l != 6 && r.served {
 			sawOddLen = true
